@@ -341,6 +341,10 @@ def directed(recvs, by_name, k):
     add_enum([{"ident": "Pairs", "style": "struct", "fields": pairs_fields()},
               {"ident": "Flat", "style": "struct", "fields": [F("solo", O(L("u8"))), F("rest", Rv(mode_holder), flatten=True, default=["trait"], post=[False, "cm_id"])]},
               {"ident": "Flat2", "style": "struct", "fields": [F("rest", Rv(deep), flatten=True, default=["trait"], post=[True, "ca_fail"])]}])
+    # a variant that is both skipped and marked `word`: the bare word must not produce it
+    add_enum([{"ident": "Gone", "style": "unit", "skip": True, "word": True}, {"ident": "Here", "style": "unit"},
+              {"ident": "Held", "style": "newtype", "fields": [F("0", L("u8"))]}])
+    add_enum([{"ident": "Gone", "style": "unit", "skip": True, "word": True}], rule="lowercase")
     # newtype receivers under every container-level post-transform (the generated from_meta of a newtype has its own shape)
     for post in (None, [False, "cm_id"], [True, "ca_ok"], [True, "ca_fail"]):
         for inner in (L("u8"), O(L("String")), Rv(deep)):
